@@ -22,7 +22,7 @@ SHARDS = {"quick": 8, "thorough": 16}
 
 
 def gen_cases(tier, seed):
-    n = 1600 if tier == "quick" else 400000
+    n = 1600 if tier == "quick" else 80000
     kinds = ["arange", "dyadic", "geometric", "random", "repeated", "single", "param_grid"]
     return [{"i": i, "kind": kinds[i % len(kinds)], "seed": seed} for i in range(n)]
 
@@ -131,7 +131,7 @@ def run_case(desc, ctx):
     c["midpoint_probes"] = int(mid.sum())
     c["outside_probes"] = int(outside.sum())
     gh = hash(grid.tobytes()) & 0xFFFFFFFF
-    out["nontrivial"] = [f"{gh:x}:{v!r}" for v in vals[mid | outside][:400]]
+    out["nontrivial"] = [f"{gh:x}:{v!r}" for v in vals[mid | outside][:120]]
     out["evals"] = len(vals)
 
     # large inputs (thousands of values in arbitrary order): snapping acts element-wise whatever the array length
